@@ -31,3 +31,63 @@ NOT_APPLICABLE = {}
 
 NOTES = ('Fixes of genuine defects of the pinned tree are "fix:" commits in /repo and are listed in known_findings.json '
          '(section "fixed"); defects recorded but not repaired are in its section "findings".')
+
+
+# ----------------------------------------------------------------------------- texts for MANIFEST.json (level_claimed.text / level_note / technique)
+_COMMON_NOTE = ('Trusted: A1 floats as reals, A2 unbounded integers, A3 kinds fixed by the contract, A4 NumPy alias rules, A5 static name resolution; the NumPy/SciPy '
+                'model contracts (cross-checked against CPython every run by executing the real bodies in concrete mode); assumed contracts listed in the evidence '
+                'file (each with a bounded conformance engine); z3/cvc5. Bounded engines are labelled bounded and never counted as discharged.')
+
+TEXTS = {
+    'C01': ('Range obligations (0 <= score <= 1, finite, guarded divisions) are postconditions of the real metric functions, discharged for all input sizes: '
+            'util.f_measure, onset/beat F, segment.detection, transcription P/R/F and average overlap ratio <= 1 (loop invariant), tempo, key, chord.weighted_accuracy, '
+            'multipitch accuracy/error scores, melody voicing/raw pitch/raw chroma/overall accuracy, alignment percentage_correct, hierarchy T/L. Segment clustering '
+            'indices, beat Cemgil/Goto/P-score/continuity, pattern and PCS ranges are bounded only.', None),
+    'C02': ('Perfect-estimate lemmas (ghost clients calling the real functions twice through their contracts): onset, beat F, detection, transcription, tempo, key, '
+            'weighted_accuracy all-ones, multipitch arithmetic, alignment pc, chord rules rule(e,e) != 0. Other tasks: bounded metamorphic engine.', None),
+    'C03': ('Every evaluate() is executed symbolically over an uninterpreted value sort with a symbolic **kwargs map and proved term-equal, key by key, to the documented '
+            'bundle written as direct calls (EUF validity queries); result arity of 49 metric functions from their return statements.', None),
+    'C04': ('Definitional postconditions against spec functions written from the cited definitions: P = mm/|est|, R = mm/|ref|, F_beta; tempo hits and P-score; key table; '
+            'multipitch formulas; melody frame sums; alignment pc; transcription criteria relations. mm is the size of a maximum matching of the stated relation '
+            '(matcher bodies: bounded).', None),
+    'C05': ('Bounded only (level other): Hopcroft-Karp, hit windows, match_events and the note matchers against brute-force maximum matching on exhaustive small scopes; '
+            'their contract is what all callers are verified against.', None),
+    'C06': ('Swap lemmas from the callee contracts plus the transposition fact of maximum matchings: onset, beat, detection, transcription onset-only / no-offset, '
+            'T-/L-measure role exchange, overseg/underseg forwarding (EUF), F symmetric at beta=1. Segment indices and pattern: bounded.', None),
+    'C07': ('Monotonicity / nesting lemmas: hit relation inclusion => mm monotone => P, R monotone; with-offset <= no-offset <= onset-only; strict <= non-strict; '
+            'raw pitch <= raw chroma; cent tolerance, alignment window, tempo tol monotone; both => one. Beat continuity / Cemgil ordering: bounded.', None),
+    'C08': ('Shift lemmas (onset, beat, transcription) and estimate-order lemma (tempo) from contracts; label renaming, pattern order, multipitch frame order, PCS shift: bounded.', None),
+    'C09': ('11 chord rules invariant under joint transposition (rule level, all encodings); key table depends on (est - ref) mod 12; KEY_TO_SEMITONE equals pitch spelling; '
+            'raw accuracies independent of estimated voicing. Mirex transposition, enharmonic respelling end-to-end, octave/common-factor scaling of frequencies: bounded.', None),
+    'C10': ('L(CHORD_RE) = L(Harte grammar): the pattern is translated mechanically from the real source and both inclusions are decided by z3; '
+            'validate/split/join/encode vs an independent spec encoder on ~120k labels and mutations (bounded).', None),
+    'C11': ('Each of the 12 comparison functions is proved equal, row by row for every list length, to the documented rule over label encodings (symbolic execution of the '
+            'vectorised NumPy body); the lattice, ignored-by-reference, self != 0 and X-ignored lemmas are proved over all well-formed encodings.', None),
+    'C12': ('weighted_accuracy = duration-weighted mean over comparable rows (SUM with induction-proved lemma library and the mask-selection model), scale invariance, '
+            'all-ones / all-zeros lemmas. Cut invariance of segment / hierarchy labelling scores: bounded.', None),
+    'C13': ('adjust_intervals and adjust_events: non-empty, begin at t_min, end at t_max, positive durations, ordered - for all sizes and all t_min/t_max, outside the recorded '
+            'wholly-outside finding. Per-instant label preservation, merge_labeled_intervals, interpolate/samples, boundary round trip: exhaustive small scope (bounded).', None),
+    'C14': ('Exceptional postconditions "raises E iff documented condition" and every safe obligation (division, index, unpack, empty reduction, None arithmetic) of every '
+            'function under contract; validators of util, onset, beat, chord, tempo, segment, transcription, melody, alignment, hierarchy parameters, io loaders.', None),
+    'C15': ('One frame obligation per mutation site of every function of 17 modules (origin analysis with inferred callee summaries): the written object is fresh on every '
+            'path; no module state is written. Native purity harness (argument snapshots, repeatability, reversed order on fresh module state): bounded.', None),
+    'C16': ('vmeasure is nce(marginal=True) (EUF); F = f_measure(over, under, beta). The six functions vs textbook formulas on the frame contingency table: bounded.', None),
+    'C17': ('tmeasure / lmeasure: ValueError iff frame_size <= 0 or frame_size > window (or invalid hierarchy); precision and recall are the same ranking score with roles '
+            'exchanged and the same window; F definition; range. Ranking core vs brute-force triplet definition: bounded.', None),
+    'C18': ('e_tot = e_sub + e_miss + e_fa, each >= 0, acc <= min(P, R), formulas and zero-reference case proved over symbolic-length arrays with the SUM lemma library. '
+            'Resampling and per-frame counts: bounded frame-by-frame spec.', None),
+    'C19': ('Arity of the four BSS entry points, initialisation of every np.empty cell on every path, permutation-search index consistency, separation.evaluate bundle (EUF). '
+            'Decomposition sum, invariances, framewise consistency: bounded native harness. Least-squares content: not decided.', None),
+    'C20': ('Loader wrappers over an abstract file: returned columns are the parsed content in file order, ValueError iff malformed / wrong line count / weight outside [0,1], '
+            'convention violations only warn. Parsing itself (re, float) on generated files: bounded.', None),
+}
+for _p, (_claim, _note) in TEXTS.items():
+    if _p in PLAN:
+        PLAN[_p]['claim'] = _claim
+        PLAN[_p]['note'] = _note or _COMMON_NOTE
+        PLAN[_p].setdefault('technique', 'contract-based deductive verification: VCs generated from the real AST against sidecar contracts, discharged by z3/cvc5'
+                            + ('; bounded stand-ins labelled as such' if PLAN[_p].get('engines') else ''))
+PLAN['C05']['technique'] = 'bounded stand-in (exhaustive small-scope enumeration against brute-force maximum matching); callers verified deductively against the assumed matcher contract'
+PLAN['C15']['technique'] = 'frame (assigns) obligations per mutation site discharged by a flow-sensitive origin analysis with inferred callee summaries; native purity harness as bounded stand-in'
+PLAN['C03']['technique'] = 'symbolic execution of evaluate() over uninterpreted functions (EUF) against the documented bundle; z3 validity query per metric name'
+PLAN['C10']['technique'] = 'regular-language equivalence of the real pattern and the Harte grammar decided by z3; bounded enumeration of labels against an independent spec'
